@@ -312,6 +312,8 @@ def run(tier):
     edgevc.check_fast_load_bookkeeping(rep, 'C13')   # ... and set to the block's last edge after a fast load
     fastloadvc.check_fast_load(rep, 'C13')  # ROM fast loading: which bytes land where, registers on exit
     fastloadvc.crosscheck_fast_load(rep, 'C13')
+    fastloadvc.check_block_selection(rep, 'C13')    # which block fast_load picks: the selection loop and next_block (contracts, termination)
+    fastloadvc.block_selection_bounded(rep, 'C13')  # pilotless junk blocks between ROM blocks, through tap2sna
     progexec.crosscheck_ffwd(rep, 'C13')
     quick = tier == 'quick'
     n = 16 if quick else 300
@@ -346,6 +348,18 @@ def replay(path):
         if d:
             print('VIOLATION property=C13 replay=%s' % path)
             return 1
+        return 0
+    if 'block_selection' in case or 'blocks' in case:
+        from props import fastloadvc
+        if 'blocks' in case:
+            r = fastloadvc.concrete_selection()
+        else:
+            r = fastloadvc.block_selection_scenarios(tuple(case['block_selection']))
+        print(r['diffs'][:2])
+        if r['diffs']:
+            print('VIOLATION property=C13 replay=%s' % path)
+            return 1
+        print('does not reproduce on this tree')
         return 0
     if 'accelerator_fields' in case:
         from props import progexec
